@@ -88,3 +88,9 @@ package roi
 //@   assume after "pt1 := subvol.EndPoint()": d.BlockSize[0] > 0 && d.BlockSize[1] > 0 && d.BlockSize[2] > 0
 //@   assert at "minIndex := minIndexByBlockZ(minBlockZ)": minBlockZ == fdiv(pt0.Value(2), d.BlockSize[2]) && maxBlockZ == fdiv(pt1.Value(2), d.BlockSize[2]) && minBlockY == fdiv(pt0.Value(1), d.BlockSize[1]) && maxBlockY == fdiv(pt1.Value(1), d.BlockSize[1]) && minBlockX == fdiv(pt0.Value(0), d.BlockSize[0]) && maxBlockX == fdiv(pt1.Value(0), d.BlockSize[0])
 //@   assert at "data := make([]uint8, numVoxels)": size.Value(0) >= 1 && size.Value(1) >= 1 && size.Value(2) >= 1 && numVoxels >= 1
+
+// ServeHTTP (C11, C20), structural contract: no variable of the request dispatcher is written by a
+// goroutine it starts and also used by the dispatcher afterwards (see neuronjson.Data.ServeHTTP).
+//@ func Data.ServeHTTP
+//@   prop C11 C20
+//@   structural
